@@ -35,7 +35,7 @@ func scenario(t *testing.T, idx int64, r *rand.Rand) {
 	var trace []string
 	var ops []string
 	deadArrivals := 0
-	checks, fullRefusals, bursts, overlaps := 0, 0, 0, 0
+	checks, fullRefusals, bursts, overlaps, refusedHandoffs := 0, 0, 0, 0, 0
 	bad := false
 	bubble(t, func(t *testing.T) {
 		w := blk.NewWorld(k, capacity)
@@ -102,7 +102,7 @@ func scenario(t *testing.T, idx int64, r *rand.Rand) {
 		check("start")
 		nops := 8 + r.IntN(25)
 		for i := 0; i < nops && !bad; i++ {
-			switch x := r.IntN(13); {
+			switch x := r.IntN(14); {
 			case x < 4: // single arrival
 				time.Sleep(time.Duration(1+r.IntN(3)) * time.Millisecond)
 				w.Quiesce()
@@ -155,6 +155,44 @@ func scenario(t *testing.T, idx int64, r *rand.Rand) {
 				w.Release(l, []string{"success", "ignore", "dropped"}[r.IntN(3)])
 				ops = append(ops, "release")
 				check("after-release")
+			case x == 13 && (k.Evict || T > 0): // a release whose hand-off the delegate refuses (it is free to); the caller it was meant for then gives up
+				// (not with neither time-out nor eviction: nothing but a further release could ever end that caller's wait)
+				var cand []*blk.Waiter
+				for _, wt := range w.Waiters {
+					if !wt.Done() && !wt.Cancelled.Load() {
+						cand = append(cand, wt)
+					}
+				}
+				if len(cand) == 0 || len(held) == 0 {
+					continue
+				}
+				w.Gate.RefuseNext.Store(true)
+				var l core.Listener
+				l, held = held[0], held[1:]
+				w.Release(l, []string{"success", "ignore", "dropped"}[r.IntN(3)])
+				refusedHandoff := !w.Gate.RefuseNext.CompareAndSwap(true, false)
+				ops = append(ops, fmt.Sprintf("release-with-refused-hand-off(%v)", refusedHandoff))
+				check("after-release-with-refused-hand-off")
+				if !refusedHandoff {
+					continue
+				}
+				refusedHandoffs++
+				wt := cand[0]
+				if k.Ordering != "fifo" {
+					wt = cand[len(cand)-1]
+				}
+				if wt.Done() {
+					continue
+				}
+				if k.Evict {
+					w.CancelWaiter(wt)
+					ops = append(ops, fmt.Sprintf("cancel(%d)", wt.ID))
+					check("after-cancel-of-the-caller-whose-hand-off-was-refused")
+				} else if T > 0 && T <= time.Second {
+					time.Sleep(T)
+					ops = append(ops, fmt.Sprintf("sleep(%v)", T))
+					check("after-timeout-of-the-caller-whose-hand-off-was-refused")
+				}
 			case x == 11 && T > 0 && T < time.Hour: // release at the very instant the oldest blocked caller times out (give-up overlapping a hand-off)
 				var first *blk.Waiter
 				for _, wt := range w.Waiters {
@@ -262,6 +300,7 @@ func scenario(t *testing.T, idx int64, r *rand.Rand) {
 	rt.Count("arrivals_with_a_done_context", int64(deadArrivals))
 	rt.Count("simultaneous_bursts", int64(bursts))
 	rt.Count("give_ups_overlapping_a_release", int64(overlaps))
+	rt.Count("releases_whose_hand_off_the_delegate_refused", int64(refusedHandoffs))
 	if !bad && checks > 5 {
 		rt.Distinct(fmt.Sprintf("%v|%d|%v", k, capacity, ops))
 	}
